@@ -222,6 +222,20 @@ CHECKS = {
         "weights sum to the volume to 1e-6 (tabulated 8-digit rules); 'mc' kind excluded (random).",
         "4/C18",
     ),
+    "C17": (
+        "Hypothesis-generated synthetic spectra (peaks, backgrounds, seeded noise, estimates incl. edges/outside, "
+        "window widths from sub-grid to full range, model specs) with statistics recomputed from the returned values; "
+        "differential batch-vs-single fits",
+        "Generated-input search with recomputation oracles: one result per estimate in order and never an exception; "
+        "'window too narrow' for windows with fewer points than parameters; batch result of each peak equals fitting it "
+        "alone; red-chi2, p (mpmath incomplete gamma) and AIC recomputed from popt and the window data to 1e-9; every "
+        "'success' re-checked against each stated requirement; automatic windows inside the data range, containing the "
+        "estimate and keeping the neighbour separation; remove_peaks = input minus fitted peaks inside successful "
+        "windows, bit-identical outside, input unchanged.",
+        "Trusted: vf/ref/fitstats.py, scipy's least-squares (as the code under test uses it). Noise is expanded from a "
+        "seed stored in the case (numpy PCG64). Fits are slow: quick tier ~150 fitted data sets.",
+        "4/C17",
+    ),
 }
 
 NOT_YET = "check not built yet (work in progress; every property is planned to be claimed, see DESIGN.md section 4)"
